@@ -2,7 +2,8 @@
 (* Trace validation for C18: what the real Authorize / ContentSecurityHandler middleware
    did with each concretised credential must be a behaviour of Gates.tla.
 
-   reset {gate, prev}                 a fresh middleware instance (prev: previous secret configured)
+   reset {gate, prev, wire}           a fresh middleware instance / server (prev: previous secret configured;
+                                      wire: how it was put together, Gates Part 4 -- [level, chain, use, ropts, decl])
    tick  {d}                          the virtual relative clock advanced by d hours
    jwt   {tok, calls, status, hstatus, sent, seen}
          tok: the symbolic token the driver concretised; calls: how often the protected handler
@@ -12,24 +13,26 @@
          seen: the claims found in the handler's context under any of the names sent, the
          registered names and the driver's fixed vocabulary, same form
    cs    {req, calls, status, hstatus, o}
-         req: the symbolic signed request; o: body/response identities "<len>:<digest>"      *)
+         req: the symbolic signed request; o: body/response identities "<len>:<digest>"
+   both  {tok, req, calls, status, hstatus, sent, seen, o}
+         one request carrying both credentials to a route that declares both gates                *)
 EXTENDS Gates, TraceKit
 
 VARIABLE l
-tvars == <<prevCfg, cnt, now, resetAt, resp, l>>
+tvars == <<prevCfg, cnt, now, resetAt, resp, wire, l>>
 
 E == Trace[l]
 IsEvent(e) == l <= Len(Trace) /\ E.e = e /\ l' = l + 1
 
 TReset == IsEvent("reset") /\ prevCfg' = E.prev /\ cnt' = [cur |-> 0, prev |-> 0] /\ now' = 0 /\ resetAt' = 0
-                           /\ resp' = NoResp
+                           /\ resp' = NoResp /\ wire' = E.wire
 TTick  == IsEvent("tick") /\ E.d > 0 /\ Tick(E.d)
-TJwt   == /\ IsEvent("jwt")
+TJwt   == /\ IsEvent("jwt") /\ wire.decl = "jwt"
           /\ E.calls \in {0, 1}
           /\ JwtReq(E.tok, E.calls = 1, E.hstatus)
           /\ E.status = resp'.status
           /\ E.calls = 1 => ClaimsSeen(E.sent, E.seen)   \* the handler sees the token's non-standard claims
-TCs    == /\ IsEvent("cs")
+TCs    == /\ IsEvent("cs") /\ wire.decl = "cs"
           /\ E.calls \in {0, 1}
           /\ \/ CsReqAct(E.req, E.calls = 1, E.hstatus, E.status, E.o)
              \/ /\ "KF_CsUnverifiedMethod" \in OpenFindings
@@ -37,15 +40,22 @@ TCs    == /\ IsEvent("cs")
              \/ /\ "KF_CsChunkedCipher" \in OpenFindings
                 /\ KF_CsChunkedCipher(E.req, E.calls = 1, E.hstatus, E.status, E.o)
 
+TBoth  == /\ IsEvent("both") /\ wire.decl = "both"
+          /\ E.calls \in {0, 1}
+          /\ E.req.method \in VerifiedMethods
+          /\ BothReq(E.tok, E.req, E.calls = 1, E.hstatus, E.status, E.o)
+          /\ E.calls = 1 => ClaimsSeen(E.sent, E.seen)
+
 \* engine-level runs only: the router answered (not found / method not allowed) and the gate was
 \* never reached -- routing is C09's business; the protected handler did not run, nothing to demand
-TNotRouted == /\ l <= Len(Trace) /\ E.e \in {"jwt", "cs"} /\ l' = l + 1
+TNotRouted == /\ l <= Len(Trace) /\ E.e \in {"jwt", "cs", "both"} /\ l' = l + 1
+              /\ wire.level = "engine"
               /\ E.calls = 0 /\ E.status \in {404, 405}
               /\ resp' = [gate |-> "router", calls |-> 0, status |-> E.status]
-              /\ UNCHANGED <<prevCfg, cnt, now, resetAt>>
+              /\ UNCHANGED <<prevCfg, cnt, now, resetAt, wire>>
 
 TInit == GInit(FALSE) /\ l = 1
-TNext == TReset \/ TTick \/ TJwt \/ TCs \/ TNotRouted
+TNext == TReset \/ TTick \/ TJwt \/ TCs \/ TBoth \/ TNotRouted
 TSpec == TInit /\ [][TNext]_tvars
 
 HW == HighWater(l)
